@@ -84,6 +84,14 @@ func init() {
 		okc := Eq(err.T, IntLit(0))
 		st.assumeRaw(Ge(x.ghostSel(st, "readlen", rid), IntLit(0)))
 		st.assumeRaw(Implies(okc, Eq(n, x.ghostSel(st, "readlen", rid))))
+		if pc.e != nil && len(pc.e.Args) == 2 {
+			if tv, ok := fr.pkg.TypesInfo.Types[pc.e.Args[0]]; ok && isResponseWriterType(tv.Type) {
+				// not a file: only the response record changes
+				x.copyToResponseWriter(st, dst, rid)
+				k(st, []Value{IntV{n}, err})
+				return
+			}
+		}
 		// destination is an open file handle: its inode grows
 		ino := x.ghostSel(st, "handleinode", dst)
 		oldSize := x.ghostSel(st, "isize", ino)
